@@ -862,6 +862,16 @@ func (dsc *dataStoreCommand) del(keyNames []string, reclaim bool) (output respVa
 	return
 }
 
+// removes every key of the database; the database object itself stays, because
+// connections, blocked clients and watches hold on to it
+func (dsc *dataStoreCommand) flush() {
+	dsc.lock()
+	defer dsc.unlock()
+
+	dsc.ds.data = newRedisDict()
+	dsc.setDirty()
+}
+
 // number of keys in the database; expired keys stay stored until they are next
 // touched, but they are not part of the database
 func (dsc *dataStoreCommand) dbSize() (count int) {
